@@ -94,6 +94,18 @@ derive_more = { path = "%s", default-features = false, features = [%s] }
     common.write_if_changed(os.path.join(pdir, "src", "lib.rs"), "\n".join(lines) + "\n")
 
 
+_targets = []
+
+
+def test_targets():
+    """[(test target name, required features)] from the repository's Cargo.toml."""
+    if not _targets:
+        toml = open(os.path.join(common.REPO, "Cargo.toml")).read()
+        for m in re.finditer(r'\[\[test\]\]\s*name = "([\w-]+)"\s*path = "[^"]*"\s*required-features = \[([^\]]*)\]', toml):
+            _targets.append((m.group(1), re.findall(r'"([\w-]+)"', m.group(2))))
+    return _targets
+
+
 def run_config(args):
     cfg, std, do_tests, slot, base = args
     tdir = os.path.join(base, "t%d" % slot)
@@ -108,7 +120,10 @@ def run_config(args):
     out["impl_err"] = p.stderr.decode("utf8", "replace")[-1500:] if p.returncode else ""
     # (2) facade crate: build (and run) the repository's test programs for this configuration
     f2 = feats + (",std" if std else "")
-    cmd = ["cargo", "test" if do_tests else "check", "--offline", "-p", "derive_more", "--no-default-features", "--features", f2, "--tests", "-j", "2"]
+    # the `compile_fail` target (trybuild) cannot run offline: it fails on the unchanged tree in the baseline too
+    targets = [t for t, req in test_targets() if t != "compile_fail" and all(r in cfg or (r == "full" and set(FEATURES) <= set(cfg)) for r in req)]
+    sel = sum((["--test", t] for t in targets), []) if (do_tests and targets) else ["--tests"]
+    cmd = ["cargo", "test" if (do_tests and targets) else "check", "--offline", "-p", "derive_more", "--no-default-features", "--features", f2] + sel + ["-j", "2"]
     p = common.run(cmd, cwd=common.REPO, env=env, timeout=3600)
     so, se = p.stdout.decode("utf8", "replace"), p.stderr.decode("utf8", "replace")
     out["facade_rc"] = p.returncode
@@ -169,9 +184,11 @@ def run(ctx):
         for f in FEATURES:
             configs.append(((f,), True, True))
             configs.append(((f,), False, True))
-        for i, a in enumerate(FEATURES):
-            for b in FEATURES[i + 1:]:
-                configs.append(((a, b), True, False))
+        allpairs = [(a, b) for i, a in enumerate(FEATURES) for b in FEATURES[i + 1:]]
+        nostd = set(rng.sample(allpairs, 110))
+        for a, b in allpairs:
+            configs.append(((a, b), True, False))
+            if (a, b) in nostd:
                 configs.append(((a, b), False, False))
         configs.append((tuple(FEATURES), True, True))
         configs.append((tuple(FEATURES), False, True))
@@ -227,8 +244,8 @@ def run(ctx):
     for r in results[:2] + results[-2:]:
         ctx.sample({"features": r["cfg"], "std": r["std"], "impl_check": r["impl_rc"], "facade": r["facade_rc"], "test_programs": r["test_programs"][:6],
                     "tests_passed": r["tests_passed"], "exports": len(r["exports"])})
-    ctx.rule = ("configurations: every single feature (quick: with std, 6 seeded ones also without std and with their test programs, plus 6 seeded pairs; thorough: all 24 singles and all 276 "
-                "pairs, each with and without std, plus `full`); per configuration the proc-macro crate is checked, the facade crate's test targets are built (and run where stated) and the "
+    ctx.rule = ("configurations: every single feature (quick: with std, 6 seeded ones also without std and with their test programs, plus 6 seeded pairs; thorough: all 24 singles with and without std, all 276 "
+                "pairs with std and 110 seeded pairs without, plus `full`); per configuration the proc-macro crate is checked, the facade crate's test targets are built (and run where stated) and the "
                 "export vector of %d names is observed; distinct = distinct (feature set, std) configurations" % len(probe_names()))
     ctx.assumptions += ["the feature -> derives/helper-types table in lib/vc/c20.py transcribes README.md and impl/doc/*.md",
                        "stable toolchain without -D warnings and without the testing-helpers feature (CI uses nightly)"]
